@@ -252,6 +252,7 @@ func c12Flows(r *kernel.Run) {
 	backend := backends[tp.Draw(3)]
 	srv := NewWorld(r, "server", backend, true, false)
 	nodeW := NewWorld(r, "node", Pick2(tp, "inmem", "file"), true, false)
+	srv.NilOpt, nodeW.NilOpt = tp.Draw(4) == 0, tp.Draw(4) == 0
 	reg := &secretReg{}
 	r.Count("cfg.mode.flows", 1)
 	var flaky *flakyWrapper
@@ -354,7 +355,7 @@ func c12Flows(r *kernel.Run) {
 			if outage(err) {
 				return
 			}
-			r.HarnessErr("authorize: %v", err)
+			r.Violate("flows-work-with-wrapper", "honest-step-failed/authorize", "authorizing an honest node failed with this option list (nil entry first: %v): %v", srv.NilOpt, err)
 		}
 		step("authorize")
 	}
@@ -363,7 +364,7 @@ func c12Flows(r *kernel.Run) {
 		if outage(err) {
 			return
 		}
-		r.HarnessErr("fetch: %v", err)
+		r.Violate("flows-work-with-wrapper", "honest-step-failed/fetch", "an honest node's fetch after authorization produced no credentials with this option list (nil entry first: %v): %v", srv.NilOpt, err)
 	}
 	step("fetch")
 	kid := keyID(creds.CertificatePublicKeyPkix)
@@ -463,6 +464,9 @@ func c12Records(r *kernel.Run) {
 	w1 := w.SW
 	w2 := newAead(r, "other-wrapper")
 	o1 := []nodeenrollment.Option{nodeenrollment.WithStorageWrapper(w1)}
+	if tp.Draw(4) == 0 {
+		o1 = []nodeenrollment.Option{nil, nodeenrollment.WithStorageWrapper(w1)} // a conditionally built list with a nil entry first
+	}
 	o2 := []nodeenrollment.Option{nodeenrollment.WithStorageWrapper(w2)}
 	r.Count("cfg.mode.records", 1)
 	rb := func(n int) []byte { b := make([]byte, n); rand.Read(b); return b }
